@@ -1,3 +1,3 @@
 SPECIFICATION Spec
-INVARIANTS InvA InvB InvC InvImplicit ModeIndependentOfPosition NoImplicitChoice Emit EmitAuto
+INVARIANTS InvA InvB InvC InvImplicit ModeIndependentOfPosition NoImplicitChoice Emit EmitAuto EmitCross
 CHECK_DEADLOCK FALSE
